@@ -183,12 +183,20 @@ def merge(overlay, src, drop_disturbed=False):
         for oi, k in attach:
             if any((o2 in dist_set) and k2 == k for o2, k2 in attach):
                 dist_set.add(oi)
+    # pure renames of locals: if every edited-in-place code line differs from its old text only by identifier tokens,
+    # consistently (old name -> new name), the old name no longer occurs in the new code and the new name did not occur
+    # in the old code, the ghost lines of this section follow the rename (a renamed local must not cost the proof)
+    ren = _rename_map(ocode, scode, sm)
+    merge.last_renames = ren
     out, tags = [], []
     for j in range(m + 1):
         for oi in by_pos.get(j, []):
             if drop_disturbed and oi in dist_set:
                 continue
-            out.append(overlay[oi])
+            gl = overlay[oi]
+            for old_name, new_name in ren.items():
+                gl = re.sub(r'(?<![\w.])%s\b' % re.escape(old_name), new_name, gl) if old_name in gl else gl
+            out.append(gl)
             tags.append(('g', oi))
         if j < m:
             out.append(src[j])
@@ -196,6 +204,43 @@ def merge(overlay, src, drop_disturbed=False):
     drift = sum(1 for t, i1, i2, j1, j2 in sm.get_opcodes() if t != 'equal' for _ in range(max(i2 - i1, j2 - j1)))
     merge.last_structural = structural
     return out, tags, disturbed, drift
+
+
+_IDENT = re.compile(r'[A-Za-z_][A-Za-z0-9_]*|\d+|\S')
+_RESERVED = set('old final res self Self true false let mut fn if else match while loop for in return break continue as ref move pub use mod impl trait struct enum type where const static unsafe dyn crate super'.split())
+
+
+def _rename_map(ocode, scode, sm):
+    ren = {}
+    ok = True
+    for tag, i1, i2, j1, j2 in sm.get_opcodes():
+        if tag == 'equal':
+            continue
+        if tag != 'replace' or i2 - i1 != j2 - j1:
+            continue   # structural changes are handled elsewhere; they do not define renames
+        for d in range(i2 - i1):
+            a, b = _IDENT.findall(ocode[i1 + d]), _IDENT.findall(scode[j1 + d])
+            if len(a) != len(b):
+                continue
+            for x, y in zip(a, b):
+                if x == y:
+                    continue
+                if not (re.match(r'[A-Za-z_]\w*$', x) and re.match(r'[A-Za-z_]\w*$', y)) or x in _RESERVED or y in _RESERVED:
+                    ok = False
+                    continue
+                if ren.get(x, y) != y:
+                    ok = False
+                ren[x] = y
+    if not ok or not ren:
+        return {}
+    old_text, new_text = '\n'.join(ocode), '\n'.join(scode)
+    out = {}
+    for x, y in ren.items():
+        # a rename, not a swap to another existing variable
+        if re.search(r'\b%s\b' % re.escape(x), new_text) or re.search(r'\b%s\b' % re.escape(y), old_text):
+            continue
+        out[x] = y
+    return out
 
 
 def parse_directive(line):
